@@ -184,6 +184,74 @@ fn check_dense(n: usize, a: &[u32], b: &[u32]) -> Option<String> {
     None
 }
 
+/// Extreme-value families: the basis argument needs the gates to be exact for every intermediate value,
+/// so vectors that maximise partial sums inside the butterflies are checked against a naive O(n^2)
+/// transform: value q-1 (and 1) on every aligned block of every power-of-two size, both as coefficient
+/// vectors through ntt and as spectra through intt.
+fn check_extremes(n: usize) -> (u64, Vec<Found>) {
+    let mut out = vec![];
+    let mut cases = 0u64;
+    if n < 2 {
+        return (0, out);
+    }
+    // the root evaluated in each output slot, read off ntt(X)
+    let slot_root: Vec<i64> = fh::felt_fft(&unit(n, 1, 1)).iter().map(|&x| x as i64).collect();
+    let inv = zq::inverse_table();
+    let ninv = inv[(n as i64 % Q) as usize];
+    // powers of each slot root and of its inverse
+    let pow: Vec<Vec<i64>> = slot_root.iter().map(|&w| { let mut v = vec![1i64; n]; for j in 1..n { v[j] = v[j - 1] * w % Q; } v }).collect();
+    let ipow: Vec<Vec<i64>> = slot_root.iter().map(|&w| { let wi = inv[w as usize]; let mut v = vec![1i64; n]; for j in 1..n { v[j] = v[j - 1] * wi % Q; } v }).collect();
+    let mut size = 1;
+    while size <= n {
+        for off in (0..n).step_by(size) {
+            for val in [(Q - 1) as u32, 1u32] {
+                if val == 1 && size != n && size != 16 {
+                    continue;
+                }
+                let mut v = vec![0u32; n];
+                for x in v[off..off + size].iter_mut() {
+                    *x = val;
+                }
+                cases += 2;
+                // forward: ntt(v)[k] = sum_j v_j w_k^j
+                let want_f: Vec<i64> = (0..n).map(|k| { let mut acc = 0i64; for j in off..off + size { acc += val as i64 * pow[k][j] % Q; } acc % Q }).collect();
+                let got_f = crate::ctx::catch(|| fh::felt_fft(&v));
+                match got_f {
+                    Ok(g) if g.iter().zip(want_f.iter()).all(|(a, b)| *a as i64 == *b) => {}
+                    Ok(_) => {
+                        if out.len() < 4 {
+                            out.push(found(format!("ntt:n={}:extreme-forward", n), format!("n={}: ntt of the vector with {} on coefficients {}..{} differs from the defining sum", n, val, off, off + size), json!({"kind":"extreme","n":n})));
+                        }
+                    }
+                    Err(e) => {
+                        if out.len() < 4 {
+                            out.push(found(format!("ntt:n={}:extreme-forward-panic", n), format!("n={}: ntt panicked on the vector with {} on coefficients {}..{}: {}", n, val, off, off + size, e), json!({"kind":"extreme","n":n})));
+                        }
+                    }
+                }
+                // inverse: intt(S)[j] = n^-1 sum_k S_k w_k^-j
+                let want_i: Vec<i64> = (0..n).map(|j| { let mut acc = 0i64; for k in off..off + size { acc += val as i64 * ipow[k][j] % Q; } acc % Q * ninv % Q }).collect();
+                let got_i = crate::ctx::catch(|| fh::felt_ifft(&v));
+                match got_i {
+                    Ok(g) if g.iter().zip(want_i.iter()).all(|(a, b)| *a as i64 == *b) => {}
+                    Ok(_) => {
+                        if out.len() < 4 {
+                            out.push(found(format!("ntt:n={}:extreme-inverse", n), format!("n={}: intt of the spectrum with {} on slots {}..{} differs from the defining sum", n, val, off, off + size), json!({"kind":"extreme","n":n})));
+                        }
+                    }
+                    Err(e) => {
+                        if out.len() < 4 {
+                            out.push(found(format!("ntt:n={}:extreme-inverse-panic", n), format!("n={}: intt panicked on the spectrum with {} on slots {}..{}: {}", n, val, off, off + size, e), json!({"kind":"extreme","n":n})));
+                        }
+                    }
+                }
+            }
+        }
+        size *= 2;
+    }
+    (cases, out)
+}
+
 pub fn run(tier: Tier) {
     let mut ctx = Ctx::new("C11", tier);
 
@@ -209,7 +277,13 @@ pub fn run(tier: Tier) {
         .par_iter()
         .map(|&n| {
             let all_pairs = tier.thorough() || n <= 256;
-            (n, check_size(n, all_pairs, tier.thorough()))
+            match crate::ctx::catch(|| check_size(n, all_pairs, tier.thorough())) {
+                Ok(r) => (n, r),
+                Err(e) => (
+                    n,
+                    SizeResult { eqs_basis: 0, pairs: 0, lin: 0, densep: 0, found: vec![found(format!("ntt:n={}:panic", n), format!("n={}: the transform pipeline panicked on basis / pair / dense inputs: {}", n, e), json!({"kind":"basis","n":n,"i":0}))] },
+                ),
+            }
         })
         .collect();
     let mut pb = Part::new(
@@ -250,6 +324,19 @@ pub fn run(tier: Tier) {
     ctx.add_part(pb);
     ctx.add_part(pp);
     ctx.add_part(pl);
+    let ex: Vec<(usize, (u64, Vec<Found>))> = sizes.par_iter().map(|&n| (n, check_extremes(n))).collect();
+    let mut pe = Part::new("extreme_values", "every n: the value q-1 on every aligned block of every power-of-two size (and 1 on the full vector and on 16-blocks), as a coefficient vector through ntt and as a spectrum through intt, against the defining O(n^2) sums over the slot roots read off ntt(X): vectors that maximise partial sums inside the butterflies (lazy reductions, narrow accumulators)");
+    for (n, (c, f)) in ex {
+        pe.states += c;
+        pe.transitions += c;
+        pe.validated += c;
+        pe.outcome(format!("n={} vectors={}", n, c));
+        for x in f {
+            ctx.violation(x.key, x.what, x.case);
+        }
+    }
+    pe.exhaustive = true;
+    ctx.add_part(pe);
     ctx.sample(json!({"n":8,"ntt(X)":fh::felt_fft(&unit(8,1,1)),"meaning":"the 8 roots of X^8+1 mod q in the transform's output order"}));
     ctx.sample(json!({"n":4,"i":3,"j":2,"intt(ntt(X^3).*ntt(X^2))":fh::felt_ifft(&fh::felt_hadamard_mul(&fh::felt_fft(&unit(4,3,1)), &fh::felt_fft(&unit(4,2,1)))),"expected":"-X = [0,12288,0,0]"}));
     ctx.assume("Z_q gates are exact (decided exhaustively by C12); butterflies contain no data-dependent branch, so agreement on a basis (and on all basis pairs for the bilinear product) extends to all q^n (q^2n) inputs; the linearity premise is additionally exercised on two-term and dense vectors");
@@ -265,6 +352,10 @@ pub fn replay(case: &Value) -> Result<Option<String>, String> {
             let n = us("n").ok_or("n")?;
             let r = check_size(n, true, true);
             Ok(r.found.into_iter().next().map(|f| f.what))
+        }
+        "extreme" => {
+            let n = us("n").ok_or("n")?;
+            Ok(check_extremes(n).1.into_iter().next().map(|f| f.what))
         }
         "dense" => {
             let n = us("n").ok_or("n")?;
